@@ -382,6 +382,10 @@ func damage(r *common.Rng, b []byte) []byte {
 }
 
 func genWire(out *common.Out, r *common.Rng, k int) {
+	if r.Chance(1, 5) {
+		genMp(out, r) // the msgpack envelope of dsstate (mpw.go)
+		return
+	}
 	switch x := r.Intn(20); {
 	case x < 5:
 		runPbEnc(out, genWirePin(r))
@@ -486,6 +490,9 @@ func replayWire(out *common.Out, ws []string, line string) {
 		}
 		b, err := hex.DecodeString(s[1:])
 		return b, err == nil
+	}
+	if replayMp(out, ws) {
+		return
 	}
 	switch ws[0] {
 	case "pbdec":
